@@ -1,7 +1,11 @@
 #!/usr/bin/env python3
 """Run the repository's pinned test suite (hooks/guard off - there are none)
 and compare with /root/.vp/BASELINE.json: every stable-pass test must still pass.
-Restores files the suite deletes from /repo (list.json)."""
+
+  tools/check_baseline.py              suite in /repo (restores list.json afterwards)
+  tools/check_baseline.py --repo DIR   suite in a scratch copy/worktree DIR (its own src/ and tests/)
+"""
+import argparse
 import json
 import os
 import subprocess
@@ -9,25 +13,43 @@ import sys
 import tempfile
 import xml.etree.ElementTree as ET
 
-base = json.load(open("/root/.vp/BASELINE.json"))
-stable = set(base["stable_pass"])
-fd, path = tempfile.mkstemp(suffix=".xml")
-os.close(fd)
-cmd = base["cmd"].replace("<file>", path)
-p = subprocess.run(cmd, shell=True, capture_output=True, text=True)
-subprocess.run("git -C /repo checkout -- list.json", shell=True)
-passed = set()
-failed = set()
-for tc in ET.parse(path).getroot().iter("testcase"):
-    name = f"{tc.get('classname')}::{tc.get('name')}"
-    bad = any(ch.tag in ("failure", "error", "skipped") for ch in tc)
-    (failed if bad else passed).add(name)
-os.remove(path)
-missing = sorted(stable - passed)
-print(f"passed={len(passed)} failed={len(failed)} stable={len(stable)} stable_missing={len(missing)} newly_passing={len(passed - stable)}")
-for m in missing[:40]:
-    print("  NOT PASSING:", m)
-st = subprocess.run("git -C /repo status --short", shell=True, capture_output=True, text=True).stdout
-if st.strip():
-    print("repo status:\n" + st)
-sys.exit(1 if missing else 0)
+
+def run(repo="/repo", quiet=False):
+    base = json.load(open("/root/.vp/BASELINE.json"))
+    stable = set(base["stable_pass"])
+    fd, path = tempfile.mkstemp(suffix=".xml")
+    os.close(fd)
+    cmd = base["cmd"].replace("<file>", path).replace("cd /repo", f"cd {repo}")
+    env = dict(os.environ)
+    env["PYTHONPATH"] = os.path.join(repo, "src")
+    env.pop("VERIF_REPO_SRC", None)
+    subprocess.run(cmd, shell=True, capture_output=True, text=True, env=env)
+    if os.path.abspath(repo) == "/repo":
+        subprocess.run("git -C /repo checkout -- list.json", shell=True)
+    passed, failed = set(), set()
+    try:
+        for tc in ET.parse(path).getroot().iter("testcase"):
+            name = f"{tc.get('classname')}::{tc.get('name')}"
+            bad = any(ch.tag in ("failure", "error", "skipped") for ch in tc)
+            (failed if bad else passed).add(name)
+    except ET.ParseError:
+        pass
+    os.remove(path)
+    missing = sorted(stable - passed)
+    if not quiet:
+        print(f"passed={len(passed)} failed={len(failed)} stable={len(stable)} "
+              f"stable_missing={len(missing)} newly_passing={len(passed - stable)}")
+        for m in missing[:40]:
+            print("  NOT PASSING:", m)
+        if os.path.abspath(repo) == "/repo":
+            st = subprocess.run("git -C /repo status --short", shell=True, capture_output=True, text=True).stdout
+            if st.strip():
+                print("repo status:\n" + st)
+    return missing
+
+
+if __name__ == "__main__":
+    ap = argparse.ArgumentParser()
+    ap.add_argument("--repo", default="/repo")
+    a = ap.parse_args()
+    sys.exit(1 if run(a.repo) else 0)
